@@ -151,6 +151,42 @@ def _coverage(repo, rep):
                       detail="hashed: %s" % sorted(hashed))
         rep.check(n >= 10, "R15.1", cq, "compile-path option reads were "
                   "found", construct="reads-found", detail=str(sorted(reads)))
+    # the hashed representation must not conflate values the compile path
+    # distinguishes (None vs empty collection, False vs None ...)
+    pdig = repo.func("chameleon.zpt.template.PageTemplate.digest")
+    lossy = []
+    for n in ast.walk(pdig.node):
+        if isinstance(n, ast.BoolOp):
+            for v in n.values:
+                if isinstance(v, ast.Call) and src(v.func) == "getattr" and \
+                        src(v.args[0]) == "self":
+                    lossy.append((n.lineno, src(n)))
+                if isinstance(v, ast.Name) and v.id == "v":
+                    lossy.append((n.lineno, src(n)))
+        if isinstance(n, ast.Call) and src(n.func) in ("bool", "len") and \
+                n.args and ("getattr(self" in src(n.args[0]) or
+                            src(n.args[0]) == "v"):
+            lossy.append((n.lineno, src(n)))
+    rep.check(not lossy, "R15.1", pdig.qualname,
+              "option values are hashed without a lossy coercion (None, "
+              "False and an empty collection stay distinct -- the compile "
+              "path distinguishes them, e.g. boolean_attributes is None "
+              "selects the HTML defaults)", construct="lossy-hash",
+              where=L.where(pdig), detail=str(lossy))
+    pparse = repo.func("chameleon.zpt.template.PageTemplate.parse")
+    tt = " ".join(src(x) for x in ast.walk(pparse.node)
+                  if isinstance(x, ast.stmt))
+    if "boolean_attributes is None" in tt:
+        # collections are sorted only under 'is not None'
+        ok = False
+        for n in ast.walk(pdig.node):
+            if isinstance(n, ast.If) and src(n.test) == "v is not None" and \
+                    any(src(x) == "v = sorted(v)" for x in n.body):
+                ok = True
+        rep.check(ok, "R15.1", pdig.qualname,
+                  "collection options are normalised (sorted) only when set: "
+                  "None keeps its own key", construct="none-distinct",
+                  where=L.where(pdig))
     # the key also covers body, class, filename, builtin names, versions
     d = repo.func(BT + "digest")
     t = " ".join(src(s) for s in ast.walk(d.node) if isinstance(s, ast.stmt))
